@@ -2,7 +2,7 @@
    Statements only.  H x W is the root surface (backing vector of at least
    H*W elements); a chain is any finite list of view(rows, cols) / transpose
    operations with arbitrary signed, inclusive/exclusive/open selectors. *)
-From Coq Require Import List Arith Bool ZArith.
+From Coq Require Import List Arith Bool ZArith NArith.
 From SNT Require Import Surface.Bounds Surface.Shape Surface.ShapeProofs Surface.ShapeOpsProofs.
 Import ListNotations.
 
@@ -51,13 +51,27 @@ Proof.
   - exact (iter_length H W sh w data Hrep Hlen).
 Qed.
 
-(* mutable iteration never hands out two references to one cell, nor one outside the buffer *)
+(* mutable iteration hands out exactly the window's cells, in row-major order (hence never two
+   references to one cell, nor one outside the buffer) *)
 Theorem C07_iter_mut_no_alias : forall (A : Type) (H W : nat) (sh : shape) (w : window) (data : list A),
   Rep H W sh w -> H * W <= length data ->
+  mut_offsets sh (length data) =
+    map (fun p => offset sh (fst p) (snd p)) (positions (sh_height sh) (sh_width sh)) /\
   NoDup (mut_offsets sh (length data)) /\
   Forall (fun o => o < length data) (mut_offsets sh (length data)) /\
   length (mut_offsets sh (length data)) = sh_height sh * sh_width sh.
-Proof. intros A H W sh w data Hrep Hlen. exact (mut_offsets_safe H W sh w data Hrep Hlen). Qed.
+Proof.
+  intros A H W sh w data Hrep Hlen. split.
+  - exact (mut_offsets_spec H W sh w data Hrep Hlen).
+  - exact (mut_offsets_safe H W sh w data Hrep Hlen).
+Qed.
+
+(* is_empty (start >= end) says exactly "the window has no cell", for every chain-built shape *)
+Theorem C07_is_empty : forall (H W : nat) (ops : list vop),
+  (Z.of_nat (Nat.max H W) <= i64_max)%Z -> forallb op_in ops = true ->
+  let sh := apply_chain (of_size H W) ops in
+  is_empty sh = (sh_height sh =? 0) || (sh_width sh =? 0).
+Proof. exact is_empty_spec. Qed.
 
 (* fill / fill_with / clear: no panic, every window cell rewritten with f(pos, old),
    every element of the backing vector outside the window unchanged *)
@@ -82,20 +96,32 @@ Theorem C07_map_reads_exactly_the_window :
                      (positions (sh_height sh) (sh_width sh)).
 Proof. intros A B H W sh w data f Hrep Hlen. exact (map_spec H W sh w data Hrep Hlen f). Qed.
 
-(* insert(pos, items): no panic; item i lands in the window cell with row-major index
-   pos.row*width + pos.col + i while that index is inside the window (excess items are
-   dropped), every other element of the backing vector is unchanged *)
-Theorem C07_insert_writes_only_window_cells :
-  forall (A : Type) (H W : nat) (sh : shape) (w : window) (data : list A) (r c : nat) (items : list A),
+(* insert(pos, items) with the index arithmetic pos.row * width + pos.col done in usize (insert_at):
+   while that index is below usize::MAX there is no panic; item i lands in the window cell with row-major
+   index pos.row*width + pos.col + i while that index is inside the window (excess items are
+   dropped), every other element of the backing vector is unchanged.  If the index does not fit,
+   the debug build panics before anything is written (C07_insert_index_overflow_panics); at exactly
+   usize::MAX the iterator's own index increment overflows once an item is offered (model insert_at). *)
+Theorem C07_insert_writes_only_window_cells_upto_usize :
+  forall (A : Type) (H W : nat) (sh : shape) (w : window) (data : list A) (r c : N) (items : list A),
   Rep H W sh w -> H * W <= length data ->
-  let start := r * sh_width sh + c in
+  (r * N.of_nat (sh_width sh) + c < 18446744073709551615)%N ->
+  let start := N.to_nat r * sh_width sh + N.to_nat c in
   let cells := map (fun p => offset sh (fst p) (snd p)) (positions (sh_height sh) (sh_width sh)) in
-  exists d', insert sh data r c items = Some d' /\ length d' = length data /\
+  exists d', insert_at sh data r c items = Some d' /\ length d' = length data /\
     (forall i o x, nth_error cells (start + i) = Some o -> nth_error items i = Some x ->
                    nth_error d' o = Some x) /\
     (forall k, (forall i, i < length items -> nth_error cells (start + i) <> Some k) ->
                nth_error d' k = nth_error data k).
-Proof. intros A H W sh w data r c items Hrep Hlen. exact (insert_spec H W sh w data Hrep Hlen r c items). Qed.
+Proof.
+  intros A H W sh w data r c items Hrep Hlen Hb. rewrite (insert_at_small sh data r c items Hb).
+  exact (insert_spec H W sh w data Hrep Hlen (N.to_nat r) (N.to_nat c) items).
+Qed.
+
+Theorem C07_insert_index_overflow_panics :
+  forall (A : Type) (sh : shape) (data : list A) (r c : N) (items : list A),
+  (18446744073709551616 <= r * N.of_nat (sh_width sh) + c)%N -> insert_at sh data r c items = None.
+Proof. intros A sh data r c items Hb. exact (insert_at_overflow sh data r c items Hb). Qed.
 
 (* non-vacuity: the chain of test_chains (10x10, view(.., ..), view(1..-1, ..), view(.., 1..-1))
    and a transposed one; both satisfy the hypotheses *)
